@@ -118,14 +118,14 @@ Theorem C05_no_switch_example :
 Proof. exact no_switch_example. Qed.
 Print Assumptions C05_no_switch_example.
 
-(* Documented semantics, stage 2: -F / -N / -C / -D / -t together with the trigger actions depth=N, time=T and trace
+(* Documented semantics, stage 2: -F / -N / -C / -D / -t together with the trigger actions depth=N, time=T, size=Z and trace
    (alone or combined with filter / notrace / caller on the same function), any trigger table with well-formed values, any
    threshold, both instrumentation shapes (the -pg / fentry / PLT shape under [pg_guard], outside which the known
    leak pg-reject-leak applies): the recorded stream equals the tree-recursive specification [sel2]. *)
-Theorem C05_matches_documented_filters_depth_time_triggers : forall tg fm hc gd thr ms sh,
+Theorem C05_matches_documented_filters_depth_time_triggers : forall tg szf fm hc gd thr ms sh,
   0 < gd -> wf_tg tg -> sh = CYG \/ pg_guard tg -> forall f, all_timed f -> heights f <= ms ->
-  out (fst (exec (fcfg2 tg fm hc gd thr ms sh) (flat_forest f) (init, []))) =
-  flat_map (sel2 tg hc (x02 fm gd thr) 0) f.
+  out (fst (exec (fcfg2 tg szf fm hc gd thr ms sh) (flat_forest f) (init, []))) =
+  flat_map (sel2 tg szf hc (x02 fm gd thr) 0) f.
 Proof. exact run_forest_sel2. Qed.
 Print Assumptions C05_matches_documented_filters_depth_time_triggers.
 
@@ -135,9 +135,9 @@ Proof. exact tg_example_ok. Qed.
 Print Assumptions C05_trigger_table_example.
 
 (* ... and therefore independent of the instrumentation method inside that option class *)
-Theorem C05_method_independent_filters_triggers : forall tg fm hc gd thr ms f,
+Theorem C05_method_independent_filters_triggers : forall tg szf fm hc gd thr ms f,
   0 < gd -> wf_tg tg -> pg_guard tg -> all_timed f -> heights f <= ms ->
-  out (fst (exec (fcfg2 tg fm hc gd thr ms PG) (flat_forest f) (init, []))) =
-  out (fst (exec (fcfg2 tg fm hc gd thr ms CYG) (flat_forest f) (init, []))).
+  out (fst (exec (fcfg2 tg szf fm hc gd thr ms PG) (flat_forest f) (init, []))) =
+  out (fst (exec (fcfg2 tg szf fm hc gd thr ms CYG) (flat_forest f) (init, []))).
 Proof. exact method_independent_sel2. Qed.
 Print Assumptions C05_method_independent_filters_triggers.
